@@ -403,8 +403,13 @@ class WorkerPool:
         with self._running_lock:
             self._shuttingdown = True
             if self._primary_thread_task_ready is not None:
-                self._primary_thread_task = None
-                self._primary_thread_task_ready.set()
+                # Only use the mailbox to wake up an idle primary thread.  If
+                # the event is set, a task has been handed over (and maybe
+                # not been picked up yet): it must still run, and the primary
+                # thread checks _shuttingdown itself once that task is done.
+                if not self._primary_thread_task_ready.is_set():
+                    self._primary_thread_task = None
+                    self._primary_thread_task_ready.set()
 
     def active_count(self) -> int:
         return len(self._running)
